@@ -130,8 +130,8 @@ def buffers():
     d = {}
     t = strip_comments(read("PlatformSupport/DOMStringHelper.cpp"))
     env = {}
-    for name in ("MAX_PRINTF_DIGITS", "MAX_FLOAT_CHARACTERS"):
-        mm = need(r"const\s+size_t\s+%s\s*=\s*([^;]+);" % name, t, name)
+    for name, ty in (("MAX_PRINTF_DIGITS", "size_t"), ("MAX_FRACTION_DIGITS", "int"), ("MAX_FLOAT_CHARACTERS", "size_t")):
+        mm = need(r"const\s+%s\s+%s\s*=\s*([^;]+);" % (ty, name), t, name)
         env[name] = const_eval(mm.group(1), env)
     d["env"] = env
     m = need(r"thePrintfStrings\s*\[\s*\]\s*=\s*\{(.*?)\}\s*;", t, "thePrintfStrings table")
@@ -148,12 +148,21 @@ def buffers():
                    ("NumberToDOMString", r"\bNumberToDOMString\s*\(\s*double[^)]*\)\s*\{")):
         body = function_body(t, rx, fn + "(double)")
         bm = need(r"char\s+theBuffer\s*\[([^\]]+)\]", body, fn + " sprintf buffer")
-        if not re.search(r"sprintf\s*\(\s*theBuffer\s*,\s*\*thePrintfString\s*,\s*theValue\s*\)", body):
-            raise AnchorError(fn + ": sprintf loop not recognised")
+        # the sprintf loops live in the shared DoubleToCharacters(theValue, theBuffer), whose parameter is a
+        # reference to an array of the same size (C18's GenNum pins its body token for token)
+        if not re.search(r"int\s+theCharsWritten\s*=\s*DoubleToCharacters\s*\(\s*theValue\s*,\s*theBuffer\s*\)\s*;", body):
+            raise AnchorError(fn + ": call of DoubleToCharacters not recognised")
         dbl.append((fn + ".theBuffer", const_eval(bm.group(1), env)))
         rm = re.search(r"XalanDOMChar\s+theResult\s*\[([^\]]+)\]", body)
         if rm:
             dbl.append((fn + ".theResult", const_eval(rm.group(1), env)))
+    hm = need(r"static\s+int\s+DoubleToCharacters\s*\(\s*double\s+theValue\s*,\s*char\s*\(\s*&\s*theBuffer\s*\)\s*\[([^\]]+)\]\s*\)\s*\{",
+              t, "DoubleToCharacters(double, char (&)[N])")
+    hbody = function_body(t, r"static\s+int\s+DoubleToCharacters\s*\([^{]*\)\s*\{", "DoubleToCharacters body")
+    if len(re.findall(r"sprintf\s*\(\s*theBuffer\s*,\s*\*thePrintfString\s*,\s*theValue\s*\)", hbody)) != 1 or \
+            len(re.findall(r"sprintf\s*\(\s*theBuffer\s*,\s*\"%\.\*f\"\s*,\s*thePrecision\s*,\s*theValue\s*\)", hbody)) != 1:
+        raise AnchorError("DoubleToCharacters: the two sprintf calls (table format, \"%.*f\") not recognised")
+    dbl.append(("DoubleToCharacters.theBuffer", const_eval(hm.group(1), env)))
     d["dbl"] = dbl
     # integer conversions: buffer[SIZE], end pointer &theBuffer[END]; ScalarToDecimalString writes
     # the terminator at END and then moves down
